@@ -1,0 +1,168 @@
+//go:build verif
+
+package morass
+
+// Bounded stand-ins for the history clauses of C11/C13 (spill/merge path through gob, files and the heap,
+// which the deductive verifier treats as opaque). Only compiled with -tags verif.
+
+import (
+	"fmt"
+	"io"
+	"io/ioutil"
+	"os"
+	"sort"
+	"testing"
+)
+
+type verifKey int
+
+func (i verifKey) Less(j interface{}) bool { return i < j.(verifKey) }
+
+type verifRec struct {
+	Key int
+	Tag string
+}
+
+func (r verifRec) Less(j interface{}) bool { return r.Key < j.(verifRec).Key }
+
+func verifCounts(c int) []int { return []int{0, 1, c - 1, c, c + 1, 3*c + 1} }
+
+func verifCycle(t *testing.T, m *Morass, n int, structs bool, drain int, cycle int) {
+	want := make([]int, n)
+	for i := 0; i < n; i++ {
+		k := (i*7 + cycle*3) % 5 // duplicate keys
+		want[i] = k
+		var err error
+		if structs {
+			err = m.Push(verifRec{k, fmt.Sprint(i)})
+		} else {
+			err = m.Push(verifKey(k))
+		}
+		if err != nil {
+			t.Fatalf("push: %v", err)
+		}
+		if m.Len() != int64(i+1) || m.Pos() != int64(i+1) {
+			t.Fatalf("after %d pushes Len=%d Pos=%d", i+1, m.Len(), m.Pos())
+		}
+	}
+	if err := m.Finalise(); err != nil {
+		t.Fatalf("finalise: %v", err)
+	}
+	if m.Len() != int64(n) {
+		t.Fatalf("Len after Finalise = %d, pushed %d", m.Len(), n)
+	}
+	sort.Ints(want)
+	var got []int
+	for pulled := 0; drain < 0 || pulled < drain; pulled++ {
+		var err error
+		var k int
+		if structs {
+			var r verifRec
+			err = m.Pull(&r)
+			k = r.Key
+		} else {
+			var v verifKey
+			err = m.Pull(&v)
+			k = int(v)
+		}
+		if err == io.EOF {
+			break
+		}
+		if err != nil {
+			t.Fatalf("pull: %v", err)
+		}
+		got = append(got, k)
+		if m.Pos() != int64(len(got)) {
+			t.Fatalf("Pos after %d pulls = %d", len(got), m.Pos())
+		}
+	}
+	for i := range got {
+		if i >= len(want) || got[i] != want[i] {
+			t.Fatalf("cycle %d (n=%d structs=%v): pulled %v, want prefix of %v", cycle, n, structs, got, want)
+		}
+	}
+	if drain < 0 && len(got) != len(want) {
+		t.Fatalf("cycle %d (n=%d structs=%v): pulled %d values to exhaustion, pushed %d", cycle, n, structs, len(got), len(want))
+	}
+}
+
+// TestVerifBounded_C11_Histories: 1..3 use cycles on one sorter, counts on both sides of the chunk size.
+func TestVerifBounded_C11_Histories(t *testing.T) {
+	cases, nontrivial := 0, 0
+	for _, c := range []int{1, 2, 4} {
+		counts := verifCounts(c)
+		for _, structs := range []bool{false, true} {
+			for _, autoClear := range []bool{false, true} {
+				for _, n1 := range counts {
+					for _, n2 := range counts {
+						for _, drain1 := range []int{-1, 1} {
+							cases++
+							if n1 > c || n2 > c {
+								nontrivial++
+							}
+							var tmpl LessInterface = verifKey(0)
+							if structs {
+								tmpl = verifRec{}
+							}
+							m, err := New(tmpl, "verif_", "", c, false)
+							if err != nil {
+								t.Fatal(err)
+							}
+							m.AutoClear = autoClear
+							verifCycle(t, m, n1, structs, drain1, 1)
+							if err := m.Clear(); err != nil {
+								t.Fatalf("clear: %v", err)
+							}
+							if m.Len() != 0 || m.Pos() != 0 {
+								t.Fatalf("after Clear Len=%d Pos=%d", m.Len(), m.Pos())
+							}
+							verifCycle(t, m, n2, structs, -1, 2)
+							m.Clear()
+							verifCycle(t, m, counts[(n1+n2)%len(counts)], structs, -1, 3)
+							m.CleanUp()
+						}
+					}
+				}
+			}
+		}
+	}
+	fmt.Printf("BOUNDED name=C11.histories cases=%d nontrivial=%d exhaustive=true domain=%q\n", cases, nontrivial, "3 cycles per sorter, chunk sizes {1,2,4}, per-cycle counts {0,1,c-1,c,c+1,3c+1}^2, partial/full first drain, AutoClear on/off, int and struct elements with duplicate keys, non-concurrent mode")
+}
+
+// TestVerifBounded_C13_Residue: nothing is left in the file system.
+func TestVerifBounded_C13_Residue(t *testing.T) {
+	cases, nontrivial := 0, 0
+	for _, c := range []int{1, 4} {
+		for _, n := range verifCounts(c) {
+			for _, mode := range []string{"cleanup", "autoclean", "autoclear"} {
+				cases++
+				nontrivial++
+				m, err := New(verifKey(0), "verif_", "", c, false)
+				if err != nil {
+					t.Fatal(err)
+				}
+				dir := m.dir
+				m.AutoClean = mode == "autoclean"
+				m.AutoClear = mode == "autoclear"
+				verifCycle(t, m, n, false, -1, 1)
+				switch mode {
+				case "cleanup":
+					m.CleanUp()
+					fallthrough
+				case "autoclean":
+					if _, err := os.Stat(dir); err == nil {
+						os.RemoveAll(dir)
+						t.Fatalf("%s: directory %s still exists (chunk %d, %d values)", mode, dir, c, n)
+					}
+				case "autoclear":
+					fis, _ := ioutil.ReadDir(dir)
+					os.RemoveAll(dir)
+					if len(fis) != 0 {
+						t.Fatalf("autoclear: %d run files left (chunk %d, %d values)", len(fis), c, n)
+					}
+				}
+			}
+		}
+	}
+	fmt.Printf("BOUNDED name=C13.residue cases=%d nontrivial=%d exhaustive=true domain=%q\n", cases, nontrivial, "chunk sizes {1,4} x counts {0,1,c-1,c,c+1,3c+1} x {CleanUp, AutoClean drain, AutoClear drain}")
+}
